@@ -174,6 +174,11 @@ func (group *Group) AddRtmpPullSession(session *rtmp.PullSession) error {
 		Log.Errorf("[%s] in stream already exist. wanna add=%s", group.UniqueKey, session.UniqueKey())
 		return base.ErrDupInStream
 	}
+	// 建连期间pull已经被停止(stop_relay_pull)，不再挂载
+	if !group.pullProxy.staticRelayPullEnable && !group.pullProxy.apiEnable {
+		Log.Warnf("[%s] relay pull stopped while connecting. wanna add=%s", group.UniqueKey, session.UniqueKey())
+		return base.ErrDupInStream
+	}
 
 	Log.Debugf("[%s] [%s] add PullSession into group.", group.UniqueKey, session.UniqueKey())
 
@@ -208,6 +213,11 @@ func (group *Group) AddRtspPullSession(session *rtsp.PullSession) error {
 
 	if group.hasInSession() {
 		Log.Errorf("[%s] in stream already exist. wanna add=%s", group.UniqueKey, session.UniqueKey())
+		return base.ErrDupInStream
+	}
+	// 建连期间pull已经被停止(stop_relay_pull)，不再挂载
+	if !group.pullProxy.staticRelayPullEnable && !group.pullProxy.apiEnable {
+		Log.Warnf("[%s] relay pull stopped while connecting. wanna add=%s", group.UniqueKey, session.UniqueKey())
 		return base.ErrDupInStream
 	}
 
